@@ -179,7 +179,7 @@ extern "C" void harness()
 #endif
 		g->curTraversal[0] = -1;
 		midn = g->rec[ri].nseen;
-		for(int i = 0; i < midn && i < MAXN; i++) midv[i] = g->rec[ri].seen[i];
+		for(int i = 0; i < midn && i < MAXN; i++) { midv[i] = g->rec[ri].seen[i]; vf_obs(3, midv[i]); }
 	}
 	// ---- one more append after the join (a stale tail or head would lose a callback now), then the final content
 	do_append(99);
